@@ -2,7 +2,7 @@ SPECIFICATION Spec
 CONSTANTS
   Words <- TokWords2
   MinWords = 0
-  MaxWords = 4
+  MaxWords = 3
   Must = {}
   OptSet <- OptsAll
   PathAlpha <- PathAlphaDef
